@@ -88,12 +88,35 @@ def exactly_one(fs):
     return core.And(*conds)
 
 
+def vm_configs():
+    """VacancyMediated configurations: C14's plus strongly anisotropic ones, where a state that needs Nthermo+1 jumps lies nearer to
+    the solute than a state inside the thermodynamic range (the kinetic stars are sorted by distance, not by jump count)"""
+    a = np.array
+    d = dict(hist.configs())
+    d['rect23-2'] = (lambda: crystal.Crystal(a([[1., 0.], [0., 2.3]]), [a([0., 0.])]), 0, 2.4, 2)
+    d['rect23-1'] = (lambda: crystal.Crystal(a([[1., 0.], [0., 2.3]]), [a([0., 0.])]), 0, 2.4, 1)
+    d['rect17-2'] = (lambda: crystal.Crystal(a([[1., 0.], [0., 1.7]]), [a([0., 0.])]), 0, 1.75, 2)
+    d['tetra23-2'] = (lambda: crystal.Crystal(np.diag([1., 1., 2.3]), [a([0., 0., 0.])]), 0, 2.35, 2)
+    return d
+
+
+_VM = {}
+
+
+def get_vm(cfg):
+    if cfg not in _VM:
+        mk, chem, cut, nth = vm_configs()[cfg]
+        crys = mk()
+        _VM[cfg] = OnsagerCalc.VacancyMediated(crys, chem, crys.sitelist(chem), crys.jumpnetwork(chem, cut), nth)
+    return _VM[cfg]
+
+
 def classify(case, vm=False):
     """vm=False: star set of C24's case list; vm=True: case is a VacancyMediated configuration of C14 (kinetic star set, pruned om1)"""
     def fn(src=None):
         src = src or Src()
         if vm:
-            calc = hist.get_calc(case)
+            calc = get_vm(case)
             crys, chem, jn, ss = calc.crys, calc.chem, calc.om0_jn, calc.kinetic
             om1, om2 = calc.om1_jn, calc.om2_jn
             thermo = S24.state_tuples(calc.thermo.states)
@@ -172,7 +195,7 @@ def structure(case, vm=False):
     def fn(src=None):
         src = src or Src()
         if vm:
-            calc = hist.get_calc(case)
+            calc = get_vm(case)
             crys, chem, jn, ss = calc.crys, calc.chem, calc.om0_jn, calc.kinetic
             om1, om2 = calc.om1_jn, calc.om2_jn
             outer = set(calc.outerkin)
@@ -247,8 +270,8 @@ def structure(case, vm=False):
 
 QUICK = ['square-2', 'sc-2', 'hcp-2', 'honeycomb-2', 'rect2-2', 'oblique-c1-2', 'b2-2', 'diamond-2']
 THOROUGH = QUICK + ['square-3', 'fcc-2', 'omega-2', 'p222-2', 'tric-c1-2']
-VM_Q = ['square-1', 'rect2-1', 'square-2']
-VM_T = VM_Q + ['sc-1', 'rumple2d-1']
+VM_Q = ['square-1', 'rect2-1', 'square-2', 'rect23-2', 'rect17-2']
+VM_T = VM_Q + ['sc-1', 'rumple2d-1', 'rect23-1', 'tetra23-2']
 
 
 def sections(tier):
